@@ -1134,7 +1134,13 @@ func (w *bWorld) apply(c *bCase, st *bStep, exe string) error {
 		w.logEvent("Unfault", "kind", st.Kind)
 	case "reshape":
 		if c.Shape2 != nil {
-			w.shape = c.Shape2
+			// the project alternates between its two shapes
+			prev := w.shape
+			if w.shape == c.Shape2 {
+				w.shape = &c.Shape
+			} else {
+				w.shape = c.Shape2
+			}
 			for n := range w.shape.Targets {
 				if w.envVer[n] == 0 {
 					w.envVer[n] = 1
@@ -1150,7 +1156,17 @@ func (w *bWorld) apply(c *bCase, st *bStep, exe string) error {
 			if err := w.writeBuildFiles(); err != nil {
 				return err
 			}
-			w.logEvent("Shape", "cfg", monCfg(w.shape))
+			// "pure": the same targets with the same bodies, sources and outputs, only the dependency
+			// lists differ -- the rewrite of the build files changes no function
+			pure := len(prev.Targets) == len(w.shape.Targets)
+			for n, t := range w.shape.Targets {
+				o := prev.Targets[n]
+				if o == nil || o.Kind != t.Kind || o.Pkg != t.Pkg || o.Always != t.Always ||
+					strings.Join(o.Srcs, ",") != strings.Join(t.Srcs, ",") || strings.Join(o.Gens, ",") != strings.Join(t.Gens, ",") {
+					pure = false
+				}
+			}
+			w.logEvent("Shape", "cfg", monCfg(w.shape), "pure", pure)
 		}
 	case "build":
 		if st.Crash != nil {
